@@ -19,6 +19,8 @@ def relevant(prop, f):
     c = set(f["c"])
     pos = f["pos"]
     if prop == "C01":
+        if sk == "reparse":
+            return c & {"S_ok", "U_lossless", "U_raise"} if l >= 3 else set()
         return c & {"S_ok", "U_lossless", "U_raise", "U_idem"} if sk == "parse" else set()
     if prop == "C02":
         return c & {"K_ok", "U_exact", "U_idem", "S_ok", "U_raise"} if sk == "ctor" else set()
@@ -57,7 +59,7 @@ def relevant(prop, f):
 
 
 SESSION_KINDS = {
-    "C01": ["parse"], "C02": ["ctor"], "C03": ["parse", "ctor", "unk", "dropspecial"], "C10": ["ctor", "dropspecial", "mutate"],
+    "C01": ["parse", "reparse"], "C02": ["ctor"], "C03": ["parse", "ctor", "unk", "dropspecial"], "C10": ["ctor", "dropspecial", "mutate"],
     "C11": ["dropreq", "enum", "lit", "intval"], "C12": ["intval"], "C13": ["enum", "parse", "ctor"], "C14": ["parse"],
     "C15": ["unk"],
 }
@@ -118,6 +120,8 @@ def replay(prop, path):
         renv = codec_check.pkg_env(os.path.join(common.REPO, "packages", "python"))
         renv["VERIF_CONV_CFG"] = sess.get("env", {}).get("cfg", "default")
         renv["PYTHONHASHSEED"] = sess.get("env", {}).get("hs", "0")
+        if sess.get("env", {}).get("O"):
+            renv["PYTHONOPTIMIZE"] = sess["env"]["O"]
         p = subprocess.run([common.PY, "-c", code, sp, tp, model], cwd=common.VERIF, env=renv, stdout=subprocess.PIPE, stderr=subprocess.PIPE)
         if p.returncode != 0:
             raise common.MachineryError(p.stderr.decode()[-2000:])
